@@ -162,7 +162,7 @@ def solve_file(path: str, timeout: float, backends: List[str]) -> Tuple[str, str
         elif be == "z3-4.8":
             cmd = [Z3_OLD, "-T:%d" % int(timeout), path]
         elif be == "cvc5":
-            cmd = [CVC5, "--tlimit=%d" % int(timeout * 1000), "--full-saturate-quant", path]
+            cmd = [CVC5, "--tlimit=%d" % int(timeout * 1000), "--full-saturate-quant", "--strings-exp", path]
         else:
             continue
         st, detail, t = _run(cmd, timeout)
